@@ -9,7 +9,11 @@ use pgvcore::traces::*;
 use pgvcore::util::{Fp, Json};
 
 const CLS_FIRST: &[&str] = &["a", "b", "Z", "com", "java", "$", "_", "é", "Ж", "x1"];
-const CLS_REST: &[&str] = &["a", "b", "Z", "0", "9", "$", "_", "é", "Ж", "Exception", "Error", "lang", "-", "<", ">"];
+const CLS_REST: &[&str] = &[
+    "a", "b", "Z", "0", "9", "$", "_", "é", "Ж", "Exception", "Error", "lang", "-", "<", ">",
+    // non-ASCII characters that are neither letters nor digits (combining marks, symbols, connectors, emoji)
+    "e\u{301}", "\u{20ac}", "\u{203f}", "\u{915}\u{94d}", "\u{1F600}", "\u{b7}", "\u{2122}", "#", "@", "!", "(", ")", ":", ",", "\"",
+];
 
 fn ident(rng: &mut Rng) -> String {
     let mut s = rng.pick(CLS_FIRST).to_string();
@@ -27,7 +31,7 @@ fn method(rng: &mut Rng) -> String {
         0 => "<init>".into(),
         1 => "<clinit>".into(),
         2 => "lambda$run$0".into(),
-        _ => ident(rng),
+        _ => ident(rng).replace(['(', ')'], "_"),
     }
 }
 fn file(rng: &mut Rng) -> String {
@@ -57,7 +61,9 @@ fn throwable(rng: &mut Rng) -> TThrowable {
     TThrowable { class: class(rng), message: message(rng) }
 }
 fn frame(rng: &mut Rng) -> TFrame {
-    TFrame { class: class(rng), method: method(rng), file: Some(file(rng)), line: line(rng) }
+    // a frame's class precedes the parenthesised file: parentheses cannot be part of it
+    let class = class(rng).replace(['(', ')'], "_");
+    TFrame { class, method: method(rng), file: Some(file(rng)), line: line(rng) }
 }
 fn trace(rng: &mut Rng, depth: usize, top: bool) -> TTrace {
     let nf = match rng.below(4) {
